@@ -77,53 +77,55 @@ LabelsFor(inp, OI, p, u) ==
   ELSE IF u = 1 THEN {DOMAIN p}
   ELSE LET need == Below(inp, OI, p, u) IN {need \cup X : X \in SUBSET ((DOMAIN p) \ need)}
 
+\* a cell is [v |-> optimum, arg |-> the pairs of child states achieving it]
+CellOf(cands) ==
+  LET v == SetMin({x[1] : x \in cands})
+  IN [v |-> v, arg |-> IF v >= Inf THEN {} ELSE {<<x[2], x[3]>> : x \in {y \in cands : y[1] = v}}]
+
 OrdRow(inp, I, OI, lca, base, p, prev, u) ==
   LET ot == inp.ot IN
-  IF IsLeaf(ot, u) THEN [q \in {<<inp.lm[u], LeafPos(inp, p, u)>>} |-> 0]
+  IF IsLeaf(ot, u) THEN [q \in {<<inp.lm[u], LeafPos(inp, p, u)>>} |-> [v |-> 0, arg |-> {}]]
   ELSE LET l == Left(ot, u)
            r == Right(ot, u)
-           fl == {q \in DOMAIN prev[l] : prev[l][q] < Inf}
-           fr == {q \in DOMAIN prev[r] : prev[r][q] < Inf}
+           fl == {q \in DOMAIN prev[l] : prev[l][q].v < Inf}
+           fr == {q \in DOMAIN prev[r] : prev[r][q].v < Inf}
        IN [q \in SpeciesFor(I, lca, base, u) \X LabelsFor(inp, OI, p, u) |->
-             SetMin({Add3(LocalOrd(I, inp.c, q[1], q[2], ql, qr), prev[l][ql], prev[r][qr]) :
+             CellOf({<<Add3(LocalOrd(I, inp.c, q[1], q[2], ql, qr), prev[l][ql].v, prev[r][qr].v), ql, qr>> :
                        ql \in fl, qr \in fr})]
 
 OrdTable(inp, I, OI, lca, base, p) ==
   FoldLeft(LAMBDA acc, u : (u :> OrdRow(inp, I, OI, lca, base, p, acc, u)) @@ acc, <<>>, BottomUp(inp.ot))
 
-OrdRootMin(T) == SetMin({T[1][q] : q \in DOMAIN T[1]})
+OrdRootMin(T) == SetMin({T[1][q].v : q \in DOMAIN T[1]})
 
-\* optimal assignments of the subtree of u given state q of u
-RECURSIVE OrdDecode(_, _, _, _, _)
-OrdDecode(inp, I, T, u, q) ==
-  LET ot == inp.ot IN
+\* optimal assignments of the subtree of u given state q of u, along the stored argmins
+RECURSIVE OrdDecode(_, _, _, _)
+OrdDecode(ot, T, u, q) ==
   IF IsLeaf(ot, u) THEN {(u :> q)}
-  ELSE LET l == Left(ot, u)
-           r == Right(ot, u)
-           best == {pr \in (DOMAIN T[l]) \X (DOMAIN T[r]) :
-                      /\ T[l][pr[1]] < Inf /\ T[r][pr[2]] < Inf
-                      /\ Add3(LocalOrd(I, inp.c, q[1], q[2], pr[1], pr[2]), T[l][pr[1]], T[r][pr[2]]) = T[u][q]}
-       IN UNION {{(u :> q) @@ al @@ ar : al \in OrdDecode(inp, I, T, l, pr[1]),
-                                         ar \in OrdDecode(inp, I, T, r, pr[2])} : pr \in best}
+  ELSE UNION {{(u :> q) @@ al @@ ar : al \in OrdDecode(ot, T, Left(ot, u), pr[1]),
+                                      ar \in OrdDecode(ot, T, Right(ot, u), pr[2])} : pr \in T[u][q].arg}
 
 \* a solution: species of every node and synteny (family sequence) of every node
 SolOf(inp, p, a) == [m |-> [u \in Nodes(inp.ot) |-> a[u][1]],
                      lab |-> [u \in Nodes(inp.ot) |-> SynOf(p, a[u][2])]]
 
-\* minimum and optimal solutions over every root order (L1)
+\* minimum and optimal solutions over every root order (L1).  (TLC evaluates
+\* operator arguments once but re-evaluates LET definitions used under nested
+\* quantifiers: tables and minima are therefore handed down as arguments.)
+OrdPerM(inp, p, T, mn) ==
+  [min |-> mn,
+   sols |-> IF mn >= Inf THEN {}
+            ELSE UNION {{SolOf(inp, p, a) : a \in OrdDecode(inp.ot, T, 1, q)} :
+                          q \in {x \in DOMAIN T[1] : T[1][x].v = mn}}]
+OrdPerT(inp, p, T) == OrdPerM(inp, p, T, OrdRootMin(T))
+OrdExpP(orders, per, mn) ==
+  [min |-> mn, norders |-> Cardinality(orders),
+   opt |-> IF mn >= Inf THEN {} ELSE UNION {per[p].sols : p \in {x \in orders : per[x].min = mn}}]
+OrdExpO(orders, per) == OrdExpP(orders, per, SetMin({per[p].min : p \in orders}))
+OrdExpL(inp, I, OI, base, lca, orders) ==
+  OrdExpO(orders, [p \in orders |-> OrdPerT(inp, p, OrdTable(inp, I, OI, lca, base, p))])
 OrdExpected(inp, I, OI, base) ==
-  LET lca == LcaMap(inp.ot, OI, I, inp.lm)
-      orders == RootOrders(inp)
-      per == [p \in orders |->
-                LET T == OrdTable(inp, I, OI, lca, base, p)
-                    mn == OrdRootMin(T)
-                IN [min |-> mn,
-                    sols |-> IF mn >= Inf THEN {}
-                             ELSE UNION {{SolOf(inp, p, a) : a \in OrdDecode(inp, I, T, 1, q)} :
-                                           q \in {x \in DOMAIN T[1] : T[1][x] = mn}}]]
-      mn == SetMin({per[p].min : p \in orders})
-  IN [min |-> mn, norders |-> Cardinality(orders),
-      opt |-> IF mn >= Inf THEN {} ELSE UNION {per[p].sols : p \in {x \in orders : per[x].min = mn}}]
+  OrdExpL(inp, I, OI, base, LcaMap(inp.ot, OI, I, inp.lm), RootOrders(inp))
 
 (***************************************************************************)
 (* Validity and cost of one given solution (used by trace validation and   *)
